@@ -86,10 +86,18 @@ def cases(tier):
             i += 1
 
 
+    # an attempt budget of two (-mi 1): two failed attempts in a row exhaust it, the molecule has to be tried again with a
+    # fresh budget, not skipped
+    for mols in ([("CH4", 1)], [("W", 1), ("CH4", 2)], [("CH3", 2), ("W", 1)]):
+        for inp in (None, "c-prefix"):
+            yield dict(mols=mols, tier=tier, idx=i, boxsrc="box", inp=inp, res=None, grid=True, fault=2 if tier == "quick" else 3, nrewind=2, maxiter=1)
+            i += 1
+
+
 def materialise(cfg):
     mols = [tuple(m) for m in cfg["mols"]]
     types = sorted({n for n, _ in mols})
-    sysd = dict(types=types, molecules=mols, kwargs=dict(nrewind=cfg.get("nrewind", 2), maxiter=5), mass_mode=cfg.get("mass_mode"))
+    sysd = dict(types=types, molecules=mols, kwargs=dict(nrewind=cfg.get("nrewind", 2), maxiter=cfg.get("maxiter", 5)), mass_mode=cfg.get("mass_mode"))
     box = [4.0, 4.5, 5.0]
     if cfg["boxsrc"] in ("box", "otherbox"):
         sysd["box"] = box if cfg["boxsrc"] == "box" else [5.0, 5.0, 5.0]
